@@ -424,7 +424,10 @@ def corrupt(rng, paras, ext_keys):
     if cands and rng.random() < 0.85:
         a, b = rng.choice(cands)
         k, ls = paras[a][b]
-        paras[a][b] = (k, ls + [RAW + bad])
+        # after the last line or (every third time) between two lines of the value: an interior
+        # blank line stays in a lossy value as an empty line and must survive print/reparse
+        pos = rng.randrange(1, len(ls) + 1) if (len(ls) > 1 and rng.random() < 0.34) else len(ls)
+        paras[a][b] = (k, ls[:pos] + [RAW + bad] + ls[pos:])
         return ""
     return bad + "\n"
 
